@@ -57,6 +57,10 @@ CHECKS = {
          "Round-trip oracles over generated inputs: event buffers (native and hand-built wire messages, every column representation, several tables) must decode to the same tables/columns/row counts/cells; query responses with integer sequences built to hit every layout of the integer codec (constant, range, delta and double-delta at the i8/i16/i32 boundaries +-1, extremes whose differences overflow i64, lengths 0-3), float, string, mixed, null and xor columns must decode value for value; xor float compression must be bit-exact without mantissa and keep sign, exponent and the leading m mantissa bits with mantissa m (0..=52), for max_regret in {0,30,100,1000}.",
          "DESIGN.md 4 C16", "Pure in-process codecs; NaN payloads compared by bit pattern; the server-side column conversion (encode_column) is exercised end-to-end by C17.",
          "property-based testing (proptest), round-trip (decode o encode) oracle"),
+ "C14": ("fault_enumeration",
+         "Round trip of every stored blob kind built from generated content (partition segments from columns of every content class with a coverage table of codec ops and section kinds, catalogues with odd names / sub-partitions / cursors, WAL segments) plus enumeration of corruptions: for each stored blob EVERY single-bit flip and EVERY truncation length (blobs <= 600 bytes; fixed stride beyond) and appended suffixes must be rejected by the checksummed loader; at database level a directory with one corrupted file must yield a reported failure, never different rows, never a hang.",
+         "DESIGN.md 4 C14", "Payload-level mutations under a recomputed checksum are different valid files and are not judged; decoders are reached through hook H3 re-exports.",
+         "property-based generation of blobs (proptest) + exhaustive single-fault enumeration per blob; round-trip and rejection oracles"),
 }
 
 NOT_YET = {
